@@ -29,6 +29,9 @@ ASSUMPTIONS = [
 OPS = ['new_child', 'rekey_child', 'hard_expire', 'rekey_ike']
 
 
+ASYM = ['anyproto', 'anyproto_anyport', 'my_port_any', 'peer_port_any', 'wider_nets', 'peer_net_wider', 'anyproto+peer_net_wider']
+
+
 @st.composite
 def cases(draw, allow_slow=False):
     cfg = draw(gen.configs(allow_slow_dh=allow_slow))
@@ -39,7 +42,9 @@ def cases(draw, allow_slow=False):
                                   st.booleans()), max_size=5))
     return {'cfg': cfg, 'entry': draw(st.integers(0, n - 1)), 'host_s': draw(st.integers(0, 300)),
             'host_d': draw(st.integers(0, 300)), 'first': draw(st.sampled_from(['a', 'b'])),
-            'cookie': draw(st.integers(0, 4)) == 0, 'both': draw(st.integers(0, 3)) == 0, 'ops': [list(o) for o in ops]}
+            'cookie': draw(st.integers(0, 4)) == 0, 'both': draw(st.integers(0, 3)) == 0, 'ops': [list(o) for o in ops],
+            'asym': draw(st.lists(st.tuples(st.sampled_from(['a', 'b']), st.sampled_from(ASYM)).map(list), max_size=2))
+            if draw(st.integers(0, 2)) == 0 else []}
 
 
 def established(ep):
@@ -50,6 +55,27 @@ def run_case(case, collect=None):
     """Executes the case; returns (fails, info)."""
     cfg = case['cfg']
     ca, cb = gen.build(cfg)
+    for side, edit in case.get('asym', []):
+        # the two administrators did not write mirror-image policies: one end is wider in protocol / port / subnet.  The
+        # negotiation narrows (or fails); whatever is installed must still be a mirror image
+        p = (ca if side == 'a' else cb)['conn']['protect'][case['entry']]
+        if 'peer_net_wider' in edit:
+            ip = __import__('ipaddress')
+            n = ip.ip_network(p.get('peer_subnet', cfg['addr_b' if side == 'a' else 'addr_a']))
+            p['peer_subnet'] = str(n.supernet(new_prefix=max(n.prefixlen - 8, 1)))
+        if edit in ('anyproto', 'anyproto+peer_net_wider'):
+            p['ip_proto'] = 'any'
+        elif edit == 'anyproto_anyport':
+            p['ip_proto'], p['my_port'], p['peer_port'] = 'any', 0, 0
+        elif edit == 'my_port_any':
+            p['my_port'] = 0
+        elif edit == 'peer_port_any':
+            p['peer_port'] = 0
+        elif edit == 'wider_nets' and 'my_subnet' in p:
+            for k in ('my_subnet', 'peer_subnet'):
+                n = __import__('ipaddress').ip_network(p[k])
+                if n.prefixlen >= 8:
+                    p[k] = str(n.supernet(new_prefix=max(n.prefixlen - 8, 1)))
     w = WD.World()
     a = w.add('a', [cfg['addr_a']], ca)
     b = w.add('b', [cfg['addr_b']], cb)
@@ -232,6 +258,10 @@ def body(case, stats):
     for f in ('cookie', 'invalid_ke', 'pfs', 'resp_initiated'):
         if info.get(f):
             kl.append(f)
+    for side, edit in case.get('asym', []):
+        kl.append('asymmetric-policy:' + edit)
+    if case.get('asym') and info.get('children'):
+        kl.append('asymmetric-policy:negotiated')
     if info.get('ike_rekeys'):
         kl.append('ike_rekey_completed')
     if info['children'] == 0:
@@ -252,7 +282,39 @@ def replay(case):
     return fails
 
 
+def asym_grid():
+    """every pair of one-sided policy edits (or none) x who starts x transport / tunnel, on an entry that names a port on one side"""
+    out = []
+    for mode in ('transport', 'tunnel'):
+        for ea in [None] + ASYM:
+            for eb in [None] + ASYM:
+                if ea is None and eb is None:
+                    continue
+                for first in 'ab':
+                    cfg = gen.simple_cfg(dh='19', mode=mode)
+                    asym = ([['a', ea]] if ea else []) + ([['b', eb]] if eb else [])
+                    out.append({'cfg': cfg, 'entry': 0, 'host_s': 3, 'host_d': 4, 'first': first, 'cookie': False, 'both': False,
+                                'ops': [['new_child', 'b' if first == 'a' else 'a', 1, False], ['rekey_child', first, 0, False]],
+                                'asym': asym})
+    return out
+
+
+def grid_worker(chunk):
+    st_ = Stats()
+    for case in chunk:
+        fails = body(case, st_)
+        st_.klass('asymmetric-grid')
+        for f in fails:
+            if common.KNOWN.is_open('C01', f.sig):
+                st_.excluded[f.sig] += 1
+            elif not any(g.sig == f.sig for g in st_.failures):
+                st_.failures.append(f)
+    return st_
+
+
 def worker(task):
+    if task[0] == 'grid':
+        return grid_worker(task[1])
     n, seed, slow = task
     ctx = common.Ctx('C01', 'quick', seed)
     st_ = Stats()
@@ -262,6 +324,9 @@ def worker(task):
 
 def run(ctx):
     n = 100 if ctx.quick else 3500
-    tasks = [(n, ctx.seed * 64 + i, (not ctx.quick) and i % 4 == 0) for i in range(common.NCPU)]
+    g = asym_grid()
+    ctx.extra['asymmetric_grid'] = f'{len(g)} directed cases: pairs of one-sided policy edits x initiator x mode'
+    tasks = [('grid', g[i::common.NCPU]) for i in range(common.NCPU)]
+    tasks += [(n, ctx.seed * 64 + i, (not ctx.quick) and i % 4 == 0) for i in range(common.NCPU)]
     for st_ in pmap(worker, tasks):
         ctx.stats.merge(st_)
